@@ -12,12 +12,28 @@ def is_big(order_char):
     return order_char in BIG
 
 
+def quot(v, k):
+    """v div 256**k written as k successive divisions by 256 (the form linear arithmetic handles well; the
+    identity (x div a) div b = x div (a*b) for a, b > 0 bridges to the closed form, see lemma_quot)"""
+    q = iv(v)
+    for _ in range(k):
+        q = q / 256
+    return q
+
+
 def digit(v, size, k, order_char):
     """k-th byte (0 = first on the wire) of the size-byte positional encoding of v"""
+    w = size - 1 - k if is_big(order_char) else k          # weight exponent of that byte
+    return quot(v, w) % 256
+
+
+def lemma_quot(P, v, size):
+    """prove, then assume:  quot(v, k) == v div 256**k  for 1 <= k < size"""
     v = iv(v)
-    if is_big(order_char):
-        return simp((v / (256 ** (size - 1 - k))) % 256) if not z3.is_expr(k) else (v / pow256(size - 1 - k)) % 256
-    return simp((v / (256 ** k)) % 256) if not z3.is_expr(k) else (v / pow256(k)) % 256
+    for k in range(2, size):
+        f = quot(v, k) == v / (256 ** k)
+        P.oblige('lemma: ((v div 256) .. div 256) [%d times] == v div 256^%d' % (k, k), f, kind='lemma')
+        P.assume(f)
 
 
 def pow256(k):
